@@ -43,9 +43,13 @@
 (* Full as the 8-bit factor int(255 * opacity) / 255 the code uses.        *)
 (*                                                                         *)
 (* Defects is the set of deviations of the modelled code from the repaired *)
-(* code: {} is the code with the candidate repairs; the code as found is   *)
-(* {"fastpath_opacity", "blend_alpha", "combine_clip", "opaque_zero",      *)
-(* "combine_range", "clip_bbox", "combine_ssrs"}.                          *)
+(* code: {} is the code with the candidate repairs; the code as found when *)
+(* this module was written was {"fastpath_opacity", "blend_alpha",         *)
+(* "combine_clip", "opaque_zero", "combine_range", "clip_bbox",            *)
+(* "combine_ssrs"} (combine_range and combine_ssrs have been repaired in   *)
+(* the repository since).  The harness calibrates the set on witness       *)
+(* requests, so the model bound to the code is the model of the code as    *)
+(* it is; the property is checked independently of that choice.            *)
 (*   fastpath_opacity  merge.py:61-69 returns a single layer as it is even *)
 (*                     when it has an opacity < 1                          *)
 (*   blend_alpha       merge.py:116-118 Image.blend of the RGB conversion: *)
